@@ -7,6 +7,9 @@ code WITH the repair of finding C20-hessian-mixed-terms (new evaluator `grad_gra
 
 * `jtj_entry`, `jtj_symm`, `jtj_posSemidef` : `jtj[a][b] = Σ_i Σ_j w_ij²·S_ija·S_ijb`, symmetric, positive
   semi-definite - for every number of observations, observed states and free parameters;
+  `jtj_perm_equivariant` : re-ordering the observed states leaves `jtj` unchanged when the weights are re-ordered along with
+  the selected sensitivities (the sum over observed states is order independent), `jtj_weights_not_permuted_counterexample` :
+  and changes it when they are not - the selection must follow `state_name`, the order the weights are given in;
 * `ff_rhs_entry` : what the coded forward-forward right-hand side computes, entry by entry, for every `nS`, `nP`
   (the `reshape(nP,nS,nP).transpose(1,0,2)`, `+ transpose(0,2,1)`, `reshape(nS*nP,nP)` index arithmetic included);
   `ffTrue_is_total_derivative_of_sens_rhs` : the true second-order sensitivity equation (the total derivative of the
@@ -90,6 +93,36 @@ theorem jtj_posSemidef (n numS p : ℕ) (w sens : Mat ℝ) : (jtjMatrix n numS p
   have := Matrix.posSemidef_conjTranspose_mul_self
     (Matrix.of (fun (j : Fin numS) (k : Fin p) => sensBlock numS w sens i j k))
   simpa [Matrix.conjTranspose_eq_transpose_of_trivial] using this
+
+/-- ORDER OF THE OBSERVED STATES.  `sens_to_jtj` sums over the observed states, so the result does not depend on the order in
+which they are named - PROVIDED the weights travel with the states: if the observed states are re-ordered by a permutation `σ`
+(columns of the selected sensitivities AND the columns of the weight matrix), `jtj` is unchanged.  This is why the selection
+`sens[:, index]` has to follow `state_name` (the order the weights and the observations are given in) and not the order of
+declaration (seeded change C20-c2: a fast path slicing the whole block in declared order, weights left in named order). -/
+theorem jtj_perm_equivariant {R : Type} [CommSemiring R] (n numS : ℕ) (σ : Equiv.Perm (Fin numS)) (w sens w' sens' : Mat R)
+    (hw : ∀ i (j : Fin numS), w' i j = w i (σ j))
+    (hs : ∀ i (j : Fin numS) c, S3 numS sens' i j c = S3 numS sens i (σ j) c) (a b : ℕ) :
+    sensToJtj n numS w' sens' a b = sensToJtj n numS w sens a b := by
+  rw [jtj_entry, jtj_entry]
+  apply sumTo_congr; intro i _
+  rw [sumTo_eq_sum, sumTo_eq_sum,
+    ← Fin.sum_univ_eq_sum_range (fun j => w' i j ^ 2 * S3 numS sens' i j a * S3 numS sens' i j b) numS,
+    ← Fin.sum_univ_eq_sum_range (fun j => w i j ^ 2 * S3 numS sens i j a * S3 numS sens i j b) numS]
+  rw [← Equiv.sum_comp σ (fun j : Fin numS => w i j ^ 2 * S3 numS sens i j a * S3 numS sens i j b)]
+  apply Finset.sum_congr rfl; intro j _
+  rw [hw, hs, hs]
+
+/-- the hypotheses of `jtj_perm_equivariant` are satisfiable (identity permutation) -/
+example {R : Type} [CommSemiring R] (n numS : ℕ) (w sens : Mat R) (a b : ℕ) :
+    sensToJtj n numS w sens a b = sensToJtj n numS w sens a b :=
+  jtj_perm_equivariant n numS (Equiv.refl _) w sens w sens (fun _ _ => rfl) (fun _ _ _ => rfl) a b
+
+/-- ... and the proviso is needed: re-ordering the sensitivities of two observed states while the weights stay where they were
+changes `jtj` (one observation, two observed states with weights 1 and 2, one parameter, sensitivities 1 and 0: 1 versus 4). -/
+theorem jtj_weights_not_permuted_counterexample :
+    sensToJtj (α := ℤ) 1 2 (fun _ j => if j = 0 then 1 else 2) (fun _ c => if c = 0 then 0 else 1) 0 0
+      ≠ sensToJtj (α := ℤ) 1 2 (fun _ j => if j = 0 then 1 else 2) (fun _ c => if c = 0 then 1 else 0) 0 0 := by
+  decide
 
 end jtj
 
